@@ -20,9 +20,9 @@ def setup():
         sh(f"rm -rf {WS}/repo && git clone -q /repo {WS}/repo")
     # sync to /repo's HEAD + working tree
     sh(f"cd {WS}/repo && git fetch -q /repo HEAD && git checkout -q --detach FETCH_HEAD && git checkout -q -- . && git clean -qfd -e target")
-    sh(f"rsync -a --delete --exclude target --exclude .git /repo/ {WS}/repo/")
+    sh(f"rsync -rlpgoD --checksum --delete --exclude target --exclude .git /repo/ {WS}/repo/")  # no -t: a restored file gets a fresh mtime, so cargo rebuilds (a preserved old mtime would leave the previous mutant's library in place when the next patch touches only the binary)
     os.makedirs(f"{WS}/harness", exist_ok=True)
-    sh(f"rsync -a --delete --exclude .cargo /verif/harness/ {WS}/harness/")
+    sh(f"rsync -rlpgoD --checksum --delete --exclude .cargo /verif/harness/ {WS}/harness/")
     t = open(f"{WS}/harness/Cargo.toml").read().replace('path = "/repo"', f'path = "{WS}/repo"')
     open(f"{WS}/harness/Cargo.toml", "w").write(t)
     os.makedirs(f"{WS}/harness/.cargo", exist_ok=True)
@@ -30,7 +30,7 @@ def setup():
     os.makedirs(f"{WS}/out", exist_ok=True)
 
 def restore():
-    sh(f"rsync -a --delete --exclude target --exclude .git /repo/ {WS}/repo/")
+    sh(f"rsync -rlpgoD --checksum --delete --exclude target --exclude .git /repo/ {WS}/repo/")  # no -t: a restored file gets a fresh mtime, so cargo rebuilds (a preserved old mtime would leave the previous mutant's library in place when the next patch touches only the binary)
 
 def apply(mut):
     if mut.get('patch'):
